@@ -321,4 +321,90 @@ theorem no_internal_of_crashFree (cr : Crashes) : ∀ (steps : List Step), crash
   | .derefProcess :: rest, h, _, _, _ => by
     unfold crashFree at h; simp at h
 
+/-! ### served inside the documented states -/
+
+theorem checkPasses_log (s : State) (l : List String) (a : Args) (c : Check) (f : Fault) :
+    checkPasses { s with log := l } a c f = checkPasses s a c f := by
+  cases c <;> rfl
+
+/-- when every state check allows the current state and the other conditions on the modes that the method tests hold,
+    BAD_SUPVISORS_STATE is never the answer -/
+theorem not_state_rejected (cr : Crashes) (d : Doc) (a : Args) (fsm : St) (hin : d.family.allowed.contains fsm = true)
+    (hfinal : d.family.finalOpen = true → fsm ≠ .final) :
+    ∀ (steps : List Step) (s : State), s.fsm = fsm → allGatesMatch d steps = true →
+      (∀ c f, Step.raise c f ∈ steps → c.isStateLike = true → c.isState = false → checkPasses s a c f = true) →
+      (runSteps cr steps s a).2 ≠ .fault .badSupvisorsState
+  | [], _, _, _, _ => by simp [runSteps]
+  | .raise c f :: rest, s, hs, hg, hx => by
+    have hg' : allGatesMatch d rest = true := by
+      unfold allGatesMatch at hg ⊢; simp only [List.all_cons, Bool.and_eq_true] at hg; exact hg.2
+    have hx' : ∀ c f, Step.raise c f ∈ rest → c.isStateLike = true → c.isState = false → checkPasses s a c f = true :=
+      fun c f hm => hx c f (List.mem_cons_of_mem _ hm)
+    by_cases hp : checkPasses s a c f = true
+    · simp only [runSteps, hp, if_true]
+      exact not_state_rejected cr d a fsm hin hfinal rest s hs hg' hx'
+    · simp only [runSteps, hp, Bool.false_eq_true, if_false]
+      intro hf
+      simp only [Result.fault.injEq] at hf
+      subst hf
+      apply hp
+      unfold allGatesMatch at hg
+      simp only [List.all_cons, Bool.and_eq_true] at hg
+      have h1 := hg.1
+      cases c with
+      | state al =>
+        simp only at h1
+        have := sameStates_sound _ _ _ h1 fsm hfinal
+        simp only [checkPasses, hs]
+        rw [← this]; exact hin
+      | masterUnset => exact hx _ _ (List.mem_cons_self ..) rfl rfl
+      | userOption => exact hx _ _ (List.mem_cons_self ..) rfl rfl
+      | jobsIdle => exact hx _ _ (List.mem_cons_self ..) rfl rfl
+      | strategy => simp [Check.isStateLike] at h1
+      | appName => simp [Check.isStateLike] at h1
+      | namespec => simp [Check.isStateLike] at h1
+      | instName => simp [Check.isStateLike] at h1
+      | progName => simp [Check.isStateLike] at h1
+      | managed => simp [Check.isStateLike] at h1
+      | level => simp [Check.isStateLike] at h1
+      | numprocs => simp [Check.isStateLike] at h1
+      | data => simp [Check.isStateLike] at h1
+  | .effect n :: rest, s, hs, hg, hx => by
+    have hg' : allGatesMatch d rest = true := by
+      unfold allGatesMatch at hg ⊢; simp only [List.all_cons, Bool.and_eq_true] at hg; exact hg.2
+    simp only [runSteps]
+    cases hc : effectCrash cr s n with
+    | some e => simp
+    | none =>
+      simp only
+      refine not_state_rejected cr d a fsm hin hfinal rest _ hs hg' ?_
+      intro c f hm h1 h2
+      rw [checkPasses_log]
+      exact hx c f (List.mem_cons_of_mem _ hm) h1 h2
+  | .lookupInst :: rest, s, hs, hg, hx => by
+    have hg' : allGatesMatch d rest = true := by
+      unfold allGatesMatch at hg ⊢; simp only [List.all_cons, Bool.and_eq_true] at hg; exact hg.2
+    have hx' : ∀ c f, Step.raise c f ∈ rest → c.isStateLike = true → c.isState = false → checkPasses s a c f = true :=
+      fun c f hm => hx c f (List.mem_cons_of_mem _ hm)
+    by_cases hi : a.instExact = true
+    · simp only [runSteps, hi, if_true]; exact not_state_rejected cr d a fsm hin hfinal rest s hs hg' hx'
+    · simp [runSteps, hi]
+  | .derefProcess :: rest, s, hs, hg, hx => by
+    have hg' : allGatesMatch d rest = true := by
+      unfold allGatesMatch at hg ⊢; simp only [List.all_cons, Bool.and_eq_true] at hg; exact hg.2
+    have hx' : ∀ c f, Step.raise c f ∈ rest → c.isStateLike = true → c.isState = false → checkPasses s a c f = true :=
+      fun c f hm => hx c f (List.mem_cons_of_mem _ hm)
+    by_cases hi : a.isGroup = true
+    · simp [runSteps, hi]
+    · have hi' : a.isGroup = false := by simpa using hi
+      simp only [runSteps, hi', Bool.false_eq_true, if_false]
+      exact not_state_rejected cr d a fsm hin hfinal rest s hs hg' hx'
+
+theorem modesPass_sound (s : State) (a : Args) (h : modesPass s = true) (c : Check) (f : Fault)
+    (h1 : c.isStateLike = true) (h2 : c.isState = false) : checkPasses s a c f = true := by
+  unfold modesPass at h
+  simp only [Bool.and_eq_true, Bool.not_eq_true'] at h
+  obtain ⟨⟨hm, hu⟩, hj⟩ := h
+  cases c <;> simp [Check.isStateLike, Check.isState] at h1 h2 <;> simp [checkPasses, hm, hu, hj]
+
 end Supv.Lemmas.Rpc
